@@ -198,6 +198,7 @@ pub fn configs(ctx: &Ctx) -> Vec<DistSpec> {
     for p in [0.0, 1e-17, 1.1e-16, 1.2e-16, 3e-16] {
         v.push(DistSpec::i(Family::Geometric, &[], &[p]));
     }
+    v.extend(env::geometric_octaves());
     v.extend(env::geom_specs());
     v.extend(env::weighted_specs());
     if ctx.property == "C05" {
